@@ -4,3 +4,4 @@ import GoImap.Props.C03
 #print axioms GoImap.C03.binsize_legacy_counterexample
 #print axioms GoImap.C03.inbox_case_repaired
 #print axioms GoImap.C03.inbox_case_legacy_counterexample
+#print axioms GoImap.C03.resp_fidelity_expunge
